@@ -767,3 +767,9 @@ Qed.
 
 Lemma lin_nodup S c s : lin_check S c s = true -> NoDup (ids c).
 Proof. intros H. destruct s; cbn [lin_check] in H; apply andb_true_iff in H as [H _]; now apply nodupb_NoDup. Qed.
+
+Lemma bind_total : forall (xs : list ident) (vs : list value), List.length xs = List.length vs -> exists e', bind xs vs = Some e'.
+Proof.
+  induction xs as [|x xs IH]; intros [|v vs] H; cbn in H; try discriminate; cbn [bind]; [eauto|].
+  destruct (IH vs) as (e' & ->); [lia|]. eauto.
+Qed.
